@@ -289,6 +289,16 @@ func (a *Adversary) scan() {
 							o, v := o, v
 							a.add(fmt.Sprintf("inj:outpay:%d>%d:%s", o, v, base), "outsider-payload", func() { a.inject(o, v, topic, data, "outsider-payload", false) })
 						}
+						if h.Bcast && a.Byz[m.From] && m.To == v {
+							// a non-participant vouches, towards this victim, for exactly what a Byzantine sender showed it
+							for _, head := range []bool{false, true} {
+								if a.coin(a.Rate, "outackshown", base, fmt.Sprint(o), fmt.Sprint(v), fmt.Sprint(head)) < 2 {
+									data := EncodeAck(h.Round, m.From, sha(wr.Payload))
+									o, v, head := o, v, head
+									a.add(fmt.Sprintf("inj:outackshown:%d>%d:%s:%v", o, v, base, head), "outsider-ack", func() { a.inject(o, v, topic, data, "outsider-ack", head) })
+								}
+							}
+						}
 						if h.Bcast && m.From != v && a.coin(a.Rate*2, "outack", base, fmt.Sprint(o), fmt.Sprint(v)) == 0 {
 							data := EncodeAck(h.Round, m.From, sha(wr.Payload))
 							o, v := o, v
